@@ -15,7 +15,7 @@ namespace {
 using namespace BaseGraph;
 
 struct Counters {
-    uint64_t remutated = 0, graphs = 0, iterSteps = 0, ctorChecks = 0, copies = 0, filesWritten = 0, emptyGraphs = 0, zeroVertex = 0;
+    uint64_t bigMultCtor = 0, remutated = 0, graphs = 0, iterSteps = 0, ctorChecks = 0, copies = 0, filesWritten = 0, emptyGraphs = 0, zeroVertex = 0;
     ObsCounters oc;
 } C;
 
@@ -185,6 +185,18 @@ template <class G> void c09(Reporter &R, const std::string &cls, const GraphSpec
             for (auto &ed : insertionOrder(s, variant, r2)) items.push_back(T{ed.first, ed.second, valueOf(canon(s.directed, ed.first, ed.second), 23)});
             if (!items.empty() && r.chance(1, 2)) items.push_back(items[r.u((unsigned)items.size())]); // repeated entry accumulates
             if (!items.empty() && r.chance(1, 4)) std::get<2>(items[r.u((unsigned)items.size())]) = 0;  // a zero-multiplicity entry still counts for the size
+            if (!items.empty() && r.chance(1, 3)) {
+                // a multiplicity from the upper half of the 32-bit range, on a pair that is named once (so that nothing wraps)
+                size_t t = r.u((unsigned)items.size());
+                Edge key = canon(s.directed, std::get<0>(items[t]), std::get<1>(items[t]));
+                unsigned occurrences = 0;
+                for (auto &it : items) occurrences += canon(s.directed, std::get<0>(it), std::get<1>(it)) == key;
+                if (occurrences == 1) {
+                    static const EdgeMultiplicity big[] = {1u << 31, 0xffffffffu, (1u << 31) + 5, 0x7fffffffu};
+                    std::get<2>(items[t]) = big[r.u(4)];
+                    ++C.bigMultCtor;
+                }
+            }
             if ((e = multiCtor<G, std::vector<T>>("std::vector", items, s.directed)) == "" && (e = multiCtor<G, std::list<T>>("std::list", items, s.directed)) == "" &&
                 (e = multiCtor<G, std::deque<T>>("std::deque", items, s.directed)) == "" && (e = multiCtor<G, std::forward_list<T>>("std::forward_list", items, s.directed)) == "" &&
                 (e = multiCtor<G, std::set<T>>("std::set", items, s.directed)) == "")
@@ -220,6 +232,7 @@ void flush(Reporter &R) {
     R.count("enumerate_mutate_enumerate_rounds", C.remutated);
     R.count("edge_iteration_steps", C.iterSteps);
     R.count("constructor_checks", C.ctorChecks);
+    R.count("constructor_lists_with_a_multiplicity_of_2_to_the_31_or_more", C.bigMultCtor);
     R.count("copy_checks", C.copies);
     R.count("files_written", C.filesWritten);
     R.count("graphs_without_edges", C.emptyGraphs);
